@@ -56,3 +56,10 @@ CHECKS.update({
          "text": "order axioms, upper-bound and closest-logic properties are single z3 validity queries over the whole finite space; detection checked end to end on ~2e4 formulas",
          "note": "AZ interpreter validated against the real code on all 72x72 pairs of named logics on every run; class invariant assumed"},
 })
+
+CHECKS.update({
+ "C03": {"level": "model_checking", "engine": "XH+TV",
+         "technique": "CrossHair on indexed constructors with symbolic integer payloads vs a three-valued typing reference; exhaustive sort-tuple enumeration; re-derivation of every node type in transformer outputs",
+         "text": "every constructor x every argument-sort tuple (arity<=3) of a 10-sort pool; extract/rotate/extend/repeat/BV/SBV/shift payloads explored symbolically at widths 1-6(8); simplify/substitute/nnf outputs re-typed node by node",
+         "note": "typing reference engine/ref/reftype.py is three-valued where pySMT is documented stricter than SMT-LIB"},
+})
